@@ -398,7 +398,8 @@ def cancel_hook(ctx, fut):
     cm = fut.methods.get("cancel")
     if cm is None:
         raise AnalysisError("_Future.cancel not found")
-    ps, it = ctx.paths(cm, fut, depth=0)
+    ownf = set(m.key for m in fut.methods.values())
+    ps, it = ctx.paths(cm, fut, depth=3, inline=lambda callee, ev, path: callee.key in ownf and not any(callee.name in c.methods for c in ctx.prog.subclasses(fut, strict=True)))
     names = set()
     for p in ps:
         for e in p.calls():
